@@ -1,7 +1,7 @@
 SPECIFICATION Spec
 CONSTANTS
   NB = 5
-  OpKinds = {"add", "addu", "rem"}
+  OpKinds = {"add", "addu", "rem", "sync"}
   MaxLen = 2
   MaxLevel = 6
   Inits = {"two", "deep", "wide"}
